@@ -7,6 +7,12 @@
 //! equal requests give identical answers wherever they occur in a history),
 //! borrowed input buffers are bit-identical to before, and a final probe run
 //! requesting every constant returns the original constant bytes.
+//!
+//! Second sub-box ("supplied intermediates"): the action additionally names an
+//! operator-output value that the caller supplies as an input (with contents
+//! that differ from what its producer computes). Histories of depth <=2 in
+//! which at least one run supplies such a value; the request key of the cached
+//! plan then varies in its *input* set as well as in its output set.
 
 use std::collections::HashSet;
 use std::sync::Mutex;
@@ -23,6 +29,8 @@ pub struct Act {
     owned: bool,
     /// 0 = all computable values (inputs, constants, op outputs), 1 = last op output only, 2 = inputs and constants only
     outs: u8,
+    /// 0 = only the graph inputs are supplied; k>0 = the (k-1)-th operator-output value is supplied too
+    extra: u8,
 }
 
 fn acts() -> Vec<Act> {
@@ -30,7 +38,21 @@ fn acts() -> Vec<Act> {
     for outs in 0..3u8 {
         for owned in [false, true] {
             for fill in 0..2u8 {
-                v.push(Act { fill, owned, outs });
+                v.push(Act { fill, owned, outs, extra: 0 });
+            }
+        }
+    }
+    v
+}
+
+/// Alphabet of the "supplied intermediates" sub-box for a program with `nv`
+/// operator-output values: {no extra, each extra} x {borrowed, owned} x {all, last op output}, fill 0.
+fn acts_extra(nv: usize) -> Vec<Act> {
+    let mut v = Vec::new();
+    for extra in 0..=nv as u8 {
+        for outs in 0..2u8 {
+            for owned in [false, true] {
+                v.push(Act { fill: 0, owned, outs, extra });
             }
         }
     }
@@ -60,28 +82,56 @@ fn run_history(ctx: &Ctx, p: &Prog, hist: &[Act], st: &mut St) -> bool {
         Ok(l) => l,
         Err(_) => return false,
     };
-    let case = || json!({"program": p.to_json(), "describe": p.describe(), "history": hist.iter().map(|a| json!([a.fill, a.owned, a.outs])).collect::<Vec<_>>()});
-    let supplied: Vec<usize> = (0..p.n_inputs).collect();
+    let case = || json!({"program": p.to_json(), "describe": p.describe(), "history": hist.iter().map(|a| json!([a.fill, a.owned, a.outs, a.extra])).collect::<Vec<_>>()});
+    let first_op_value = p.n_inputs + p.n_consts;
     for (step, a) in hist.iter().enumerate() {
-        let inputs: Vec<NArr> = (0..p.n_inputs).map(|i| prog::input_fill(a.fill as usize, i)).collect();
-        let reference = prog::eval(p, &inputs);
+        let mut inputs: Vec<NArr> = (0..p.n_inputs).map(|i| prog::input_fill(a.fill as usize, i)).collect();
+        let mut supplied: Vec<usize> = (0..p.n_inputs).collect();
+        let plain = prog::eval(p, &inputs);
+        // the supplied intermediate: same shape as what its producer computes, different contents
+        let over: Option<(usize, NArr)> = if a.extra == 0 {
+            None
+        } else {
+            let v = first_op_value + a.extra as usize - 1;
+            match plain.get(v).and_then(|x| x.as_ref()) {
+                Some(r) => Some((v, NArr { shape: r.shape.clone(), data: r.data.iter().map(|x| x + 16.0).collect() })),
+                None => continue, // the naive evaluator cannot compute it: no expectation
+            }
+        };
+        let reference = prog::eval_over(p, &inputs, over.as_ref().map(|(v, a)| (*v, a)));
         let outs = out_set(p, &reference, a.outs);
         if outs.is_empty() {
             continue;
         }
+        let n_graph_inputs = inputs.len();
+        if let Some((v, arr)) = &over {
+            // `subject::run` indexes tensors by value index
+            while inputs.len() < *v {
+                inputs.push(NArr { shape: vec![0], data: vec![] });
+            }
+            inputs.push(arr.clone());
+            supplied.push(*v);
+        }
         let tensors: Vec<_> = inputs.iter().map(subject::to_tensor).collect();
-        let mask = if a.owned { (1u32 << p.n_inputs) - 1 } else { 0 };
+        let mask = if a.owned { (1u32 << inputs.len()) - 1 } else { 0 };
         st.runs += 1;
         let r = subject::run(&l, &tensors, &supplied, &outs, &RunCfg { owned_mask: mask, pool: None, order: None });
-        let ctxs = format!("run #{} of the history ({} inputs, output set {})", step + 1, if a.owned { "owned" } else { "borrowed" }, a.outs);
+        let ctxs = format!(
+            "run #{} of the history ({} inputs{}, output set {})",
+            step + 1,
+            if a.owned { "owned" } else { "borrowed" },
+            match &over { Some((v, _)) => format!(", {} supplied by the caller", p.vname(*v)), None => String::new() },
+            a.outs
+        );
         match r {
             RunOutcome::Ok(vals) => {
                 for (k, &o) in outs.iter().enumerate() {
                     let want = reference[o].as_ref().unwrap();
                     if !vals[k].same(want) {
                         let cls = if step == 0 { "first run" } else { "later run (earlier runs influenced it or the model changed)" };
+                        let sup = if hist[..=step].iter().any(|h| h.extra != 0) { " [a run supplies an intermediate value]" } else { "" };
                         ctx.violation(
-                            format!("run result differs from naive evaluation: {cls}; value is {}", if p.producer(o).is_some() { "an operator output" } else if o < p.n_inputs { "a graph input" } else { "a constant" }),
+                            format!("run result differs from naive evaluation: {cls}; value is {}{sup}", if p.producer(o).is_some() { "an operator output" } else if o < p.n_inputs { "a graph input" } else { "a constant" }),
                             case(),
                             format!("{ctxs}: {} value {} got {:?} want {:?}", p.describe(), p.vname(o), vals[k], want),
                         );
@@ -101,6 +151,9 @@ fn run_history(ctx: &Ctx, p: &Prog, hist: &[Act], st: &mut St) -> bool {
         // borrowed inputs untouched
         if !a.owned {
             for (i, t) in tensors.iter().enumerate() {
+                if i >= n_graph_inputs && !supplied.contains(&i) {
+                    continue;
+                }
                 let now = NArr { shape: t.shape().to_vec(), data: t.to_vec() };
                 if !now.same(&inputs[i]) {
                     ctx.violation("a borrowed input view was modified by the run", case(), format!("{ctxs}: input x{i} now {:?}", now));
@@ -113,6 +166,7 @@ fn run_history(ctx: &Ctx, p: &Prog, hist: &[Act], st: &mut St) -> bool {
     let consts: Vec<usize> = (p.n_inputs..p.n_inputs + p.n_consts).collect();
     let inputs: Vec<NArr> = (0..p.n_inputs).map(|i| prog::input_fill(0, i)).collect();
     let tensors: Vec<_> = inputs.iter().map(subject::to_tensor).collect();
+    let supplied: Vec<usize> = (0..p.n_inputs).collect();
     if let RunOutcome::Ok(vals) = subject::run(&l, &tensors, &supplied, &consts, &RunCfg { owned_mask: 0, pool: None, order: None }) {
         for (k, _) in consts.iter().enumerate() {
             if !vals[k].same(&prog::const_value(k)) {
@@ -125,6 +179,22 @@ fn run_history(ctx: &Ctx, p: &Prog, hist: &[Act], st: &mut St) -> bool {
 }
 
 fn dfs(ctx: &Ctx, p: &Prog, alphabet: &[Act], depth: usize, hist: &mut Vec<Act>, st: &mut St) {
+    dfs2(ctx, p, alphabet, depth, hist, st, false)
+}
+
+/// `only_extra`: execute only histories in which some run supplies an intermediate
+/// (the others belong to the first sub-box); prefixes are still extended.
+fn dfs2(ctx: &Ctx, p: &Prog, alphabet: &[Act], depth: usize, hist: &mut Vec<Act>, st: &mut St, only_extra: bool) {
+    if only_extra && !hist.iter().any(|a| a.extra != 0) {
+        if hist.len() < depth {
+            for &a in alphabet {
+                hist.push(a);
+                dfs2(ctx, p, alphabet, depth, hist, st, only_extra);
+                hist.pop();
+            }
+        }
+        return;
+    }
     st.histories += 1;
     st.states.insert(vp_core::fnv(format!("{:?}{:?}", p.ops, hist).as_bytes()));
     if !run_history(ctx, p, hist, st) {
@@ -135,7 +205,7 @@ fn dfs(ctx: &Ctx, p: &Prog, alphabet: &[Act], depth: usize, hist: &mut Vec<Act>,
     }
     for &a in alphabet {
         hist.push(a);
-        dfs(ctx, p, alphabet, depth, hist, st);
+        dfs2(ctx, p, alphabet, depth, hist, st, only_extra);
         hist.pop();
     }
 }
@@ -145,7 +215,7 @@ pub fn run(ctx: Ctx) -> ! {
     if let Some(path) = &ctx.replay {
         let case = vp_core::read_replay_case(path);
         let p = Prog::from_json(&case["program"]);
-        let hist: Vec<Act> = case["history"].as_array().unwrap().iter().map(|a| Act { fill: a[0].as_u64().unwrap() as u8, owned: a[1].as_bool().unwrap(), outs: a[2].as_u64().unwrap() as u8 }).collect();
+        let hist: Vec<Act> = case["history"].as_array().unwrap().iter().map(|a| Act { fill: a[0].as_u64().unwrap() as u8, owned: a[1].as_bool().unwrap(), outs: a[2].as_u64().unwrap() as u8, extra: a.get(3).and_then(|x| x.as_u64()).unwrap_or(0) as u8 }).collect();
         let mut st = St::default();
         run_history(&ctx, &p, &hist, &mut st);
         ctx.finish("model_checking", json!({"states": 1, "transitions": 1, "traces_validated_against_impl": 1, "samples": [case]}), vec![]);
@@ -164,6 +234,8 @@ pub fn run(ctx: Ctx) -> ! {
         for p in &progs[c * chunk..((c + 1) * chunk).min(progs.len())] {
             st.programs += 1;
             dfs(ctxr, p, &alphabet, depth, &mut Vec::new(), &mut st);
+            let nv = p.n_values() - p.n_inputs - p.n_consts;
+            dfs2(ctxr, p, &acts_extra(nv), 2, &mut Vec::new(), &mut st, true);
         }
         if c % 131 == 7 {
             samples.push(|| json!({"program": progs[c * chunk].describe(), "history_alphabet": "fill{0,1} x {borrowed,owned} x output set{all, last op output, inputs+constants}", "depth": depth}));
@@ -187,6 +259,7 @@ pub fn run(ctx: Ctx) -> ! {
         "programs": t.programs,
         "history_depth": depth,
         "alphabet_size": alphabet.len(),
+        "supplied_intermediates_sub_box": "alphabet {no extra, each operator-output value supplied by the caller with contents = computed + 16} x {borrowed, owned} x {all values, last op output}, fill 0; every history of depth <=2 in which at least one run supplies an intermediate",
         "explanation": "states = distinct (program, history) pairs (the model's only mutable state, the cached plan, is a function of the history); transitions = Model::run calls; every history runs on a freshly loaded real model",
     });
     ctx.finish("model_checking", cov, vec!["determinism is checked through equality with the naive evaluator at every position of every history".into()])
